@@ -14,7 +14,7 @@ RULE = ("random plain-data trees (depth <= 5, <= 40 leaves) over null/bool/int (
         "formats and options, and XML is decoded under every other root tag (must be rejected); out-of-domain "
         "(tree, format) pairs are skipped and counted; non-trivial = tree with >= 3 nodes in the domain of >= 2 "
         "formats; distinct = distinct tree")
-REQUIRED = ("encodes_after_a_failed_encode", "documents_of_chosen_encoded_size", "trees_with_shared_late_objects", "second_decodes_after_mutation", "roundtrip:json", "roundtrip:yaml", "roundtrip:bson", "roundtrip:xml", "roundtrip:pickle",
+REQUIRED = ("trees_nested_30_to_200_levels", "encodes_after_a_failed_encode", "documents_of_chosen_encoded_size", "trees_with_shared_late_objects", "second_decodes_after_mutation", "roundtrip:json", "roundtrip:yaml", "roundtrip:bson", "roundtrip:xml", "roundtrip:pickle",
             "cross_format_comparisons", "option_comparisons", "xml_wrong_root_rejected")
 ASSUMPTIONS = ["domains are the ones stated in the property (XML: XML 1.0 characters without CR and keys that are "
                "XML names; BSON: signed 64-bit integers, keys without NUL), plus: no lone surrogates, integers "
@@ -57,6 +57,14 @@ def directed(ctx):
     for n in (40, 150, 300):
         items = [{"name": "srv-%d" % i, "port": 8000 + i, "tags": ["t%d" % i]} for i in range(n)]
         yield {"tree": {"servers": items, "primary": items[-1]["name"], "backup": items[n // 2]["tags"]}, "directed": 1, "shared": n}
+    # values that sit inside many containers (chains of maps and lists 30 ... 200 levels deep)
+    for depth in (30, 64, 99, 100, 101, 128, 150, 200):
+        for shape in ("maps", "lists", "alternating"):
+            t = "leaf"
+            for level in range(depth):
+                as_map = shape == "maps" or (shape == "alternating" and level % 2 == 0)
+                t = {"k": t} if as_map else [t]
+            yield {"tree": {"deep": t, "n": depth}, "directed": 1, "deep": depth}
     from .c02 import RELATED_STRINGS
 
     for a, b in RELATED_STRINGS:
@@ -99,6 +107,8 @@ def _scramble(t, depth=0):
 
 
 def run(case, ctx, res):
+    if case.get("deep"):
+        res.count("trees_nested_30_to_200_levels")
     cc = ctx.cc
     tree = case["tree"]
     if case.get("sized"):
